@@ -262,6 +262,9 @@ func ruleC19R3(w *World, r *Report) {
 				t = &tm{map[string]*ast.FuncDecl{}, map[string]*ast.FuncDecl{}}
 				byType[n.Obj().Name()] = t
 			}
+			if !ast.IsExported(fd.Name.Name) {
+				continue // a private helper of the emitters (selectorToGo), not a method of the expression interfaces
+			}
 			switch {
 			case strings.HasPrefix(fd.Name.Name, "Eval"):
 				t.evals[strings.TrimPrefix(fd.Name.Name, "Eval")] = fd
